@@ -6,6 +6,8 @@ import (
 	"context"
 	"time"
 
+	gitlab "gitlab.com/gitlab-org/api/client-go"
+
 	"github.com/cloudflare/pint/internal/checks"
 )
 
@@ -48,11 +50,41 @@ func verifStub_reporter_GithubReporter_fixCommentLine(gr GithubReporter, dst any
 	return "RIGHT", verifFix(p.path, p.line, p.anchor)
 }
 
-// (old-file line of a new-file line): what diffLineFor computes from the merge request diff. Functional, otherwise arbitrary.
+// GitLab placement (glplace=1): the REAL reportToGitLabDiscussion decides which of new_line / old_line a discussion is
+// created with; the three diff helpers it calls are cut: every path has a diff, and diffLineFor answers with an
+// uninterpreted, functional (path, line) -> (found, old line, wasModified). List shows NewLine when it is > 0 and OldLine
+// otherwise (the line derivation of GitLabReporter.List), which is what verifStore.place mirrors.
+var verifCurPath string
+
+func verifStub_getDiffForPath(diffs []*gitlab.MergeRequestDiff, path string) *gitlab.MergeRequestDiff {
+	verifCurPath = path
+	return &gitlab.MergeRequestDiff{OldPath: path, NewPath: path}
+}
+
+func verifStub_parseDiffLines(diff string) []diffLine { return nil }
+
+func verifStub_diffLineFor(lines []diffLine, line int) (diffLine, bool) {
+	old, mod, found := 0, false, false
+	for l := 1; l <= verifMaxLine; l++ {
+		old = verifIteInt(line == l, verifFnInt("old-l"+verifItoa(l), verifCurPath), old)
+		mod = verifOr(mod, verifAnd(line == l, verifPred("mod-l"+verifItoa(l), verifCurPath)))
+		found = verifOr(found, verifAnd(line == l, verifPred("found-l"+verifItoa(l), verifCurPath)))
+	}
+	return diffLine{old: old, new: line, wasModified: mod}, found
+}
+
 func verifOldLine(path string, line int) int {
 	r := 0
 	for l := 1; l <= verifMaxLine; l++ {
 		r = verifIteInt(line == l, verifFnInt("old-l"+verifItoa(l), path), r)
+	}
+	return r
+}
+
+func verifFound(path string, line int) bool {
+	r := false
+	for l := 1; l <= verifMaxLine; l++ {
+		r = verifOr(r, verifAnd(line == l, verifPred("found-l"+verifItoa(l), path)))
 	}
 	return r
 }
@@ -96,9 +128,15 @@ func (s *verifStore) place(p PendingComment) int {
 	if s.eq == 0 {
 		return verifFix(p.path, p.line, p.anchor)
 	}
-	if s.glplace == 1 && p.anchor == checks.AnchorBefore {
-		// reportToGitLabDiscussion sends only old_line = diffLine.old for AnchorBefore; List shows OldLine when NewLine is 0
-		return verifOldLine(p.path, p.line)
+	if s.glplace == 1 {
+		opt := reportToGitLabDiscussion(p, nil, &gitlab.MergeRequestDiffVersion{})
+		if opt.Position.NewLine != nil && *opt.Position.NewLine > 0 {
+			return *opt.Position.NewLine
+		}
+		if opt.Position.OldLine != nil {
+			return *opt.Position.OldLine
+		}
+		return 0
 	}
 	return p.line
 }
@@ -196,6 +234,9 @@ func verifHasID(list []ExistingComment, id int) bool {
 // The platform's IsEqual is the reference's "same file, same line, same text": an obligation of its own, and (once
 // discharged) the bridge that keeps the end-to-end obligations below cheap for the solver.
 func verifEqLemma(s *verifStore, list []ExistingComment, pending []PendingComment, round string) {
+	if s.glplace == 1 {
+		return // small jobs: the end-to-end obligations are decided directly (and name the visible symptom)
+	}
 	for _, e := range list {
 		for _, p := range pending {
 			verifAssert(s.IsEqual(ghPR{}, e, p) == verifRefCovers(s, e, p), "the platform's IsEqual means same file, same line, same text up to surrounding newlines"+round)
@@ -291,7 +332,16 @@ func verifMkPending(tag string) PendingComment {
 		anchor: checks.Anchor(verifByte("panchor" + tag))}
 	verifAssume(p.line >= 1 && p.line <= verifMaxLine)
 	verifAssume(p.anchor <= checks.AnchorBefore)
+	verifKnown(p)
 	return p
+}
+
+// Known finding C17-gitlab-before-line (notes/C17.md): GitLabReporter.Create places an AnchorBefore comment at
+// old_line = diffLine.old, List shows it at that line, but GitLabReporter.IsEqual compares with pending.line.
+func verifKnown(p PendingComment) {
+	if verifParam("eq") == 1 && verifParam("glplace") == 1 {
+		verifSig("C17-gitlab-before-line", verifAnd(verifAnd(p.anchor == checks.AnchorBefore, verifFound(p.path, p.line)), verifOldLine(p.path, p.line) != p.line))
+	}
 }
 
 // VerifHarness_Rounds: parameters eq, policy, glplace, nexist (0..3), npending (0..3).
@@ -333,6 +383,7 @@ func VerifHarness_Evolve() {
 		moved := pending[0]
 		moved.line = verifInt("movedline")
 		verifAssume(moved.line >= 1 && moved.line <= verifMaxLine && moved.line != pending[0].line)
+		verifKnown(moved)
 		next = append(append(next, moved), pending[1:]...)
 	}
 	nodefer, _, _ := verifRound(s, max, next, " (round 2, evolved)")
